@@ -33,7 +33,10 @@ type TracerScenario struct {
 	LeaveAt []int `json:"leave"`  // unsubscribe once that many traces were taken (-1: never)
 	SlowUs  []int `json:"slowus"` // consumer delay per received trace
 	Cancel  bool  `json:"cancel"` // cancel the context at the end and wait for termination
-	Seed    int64 `json:"seed"`
+	// CancelAt >= 0: cancel the context already when that many traces have been taken
+	// (senders are still active; subscribing and unsubscribing must keep working)
+	CancelAt int   `json:"cancel_at"`
+	Seed     int64 `json:"seed"`
 }
 
 // TracerRun drives pkg/tracing's tracer with concurrent senders and
@@ -92,7 +95,12 @@ func TracerRun(run int, sc TracerScenario) []TRec {
 			mu.Lock()
 			add(TRec{Ev: "sub_call", S: name})
 			mu.Unlock()
-			tr.SubscribeChannel(ch)
+			if !callWithin(5*time.Second, func() { tr.SubscribeChannel(ch) }) {
+				mu.Lock()
+				add(TRec{Ev: "blocked", S: name})
+				mu.Unlock()
+				return
+			}
 			mu.Lock()
 			add(TRec{Ev: "sub_ret", S: name})
 			mu.Unlock()
@@ -118,6 +126,26 @@ func TracerRun(run int, sc TracerScenario) []TRec {
 						}
 					case <-stopConsume[i]:
 						return
+					case <-tr.Done():
+						// the tracer has terminated: a subscribed channel has been closed
+						// (after its last trace); a channel that is neither closed nor
+						// holding anything was never subscribed (subscription after termination)
+						select {
+						case t, ok := <-ch:
+							if !ok {
+								mu.Lock()
+								add(TRec{Ev: "closed", S: name})
+								mu.Unlock()
+								return
+							}
+							if m, ok := t.(tmsg); ok {
+								mu.Lock()
+								add(TRec{Ev: "recv", S: name, P: m.P, K: m.K})
+								mu.Unlock()
+							}
+						default:
+							return
+						}
 					}
 				}
 			}()
@@ -129,7 +157,12 @@ func TracerRun(run int, sc TracerScenario) []TRec {
 				// the consumer stops; Unsubscribe drains what is left
 				close(stopConsume[i])
 				<-consumerDone
-				tr.Unsubscribe(ch)
+				if !callWithin(5*time.Second, func() { tr.Unsubscribe(ch) }) {
+					mu.Lock()
+					add(TRec{Ev: "blocked", S: name})
+					mu.Unlock()
+					return
+				}
 				mu.Lock()
 				add(TRec{Ev: "unsub_ret", S: name})
 				mu.Unlock()
@@ -140,6 +173,17 @@ func TracerRun(run int, sc TracerScenario) []TRec {
 	}
 	// subscribers that join before any send must be in before the senders start
 	time.Sleep(2 * time.Millisecond)
+	earlyCancelled := false
+	if sc.Cancel && sc.CancelAt >= 0 {
+		earlyCancelled = true
+		go func() {
+			waitTaken(min(sc.CancelAt, total))
+			mu.Lock()
+			add(TRec{Ev: "cancel"})
+			mu.Unlock()
+			cancel()
+		}()
+	}
 	var sendWG sync.WaitGroup
 	for p := 1; p <= sc.Senders; p++ {
 		p := p
@@ -191,10 +235,12 @@ func TracerRun(run int, sc TracerScenario) []TRec {
 	add(TRec{Ev: "quiet"})
 	mu.Unlock()
 	if sc.Cancel {
-		mu.Lock()
-		add(TRec{Ev: "cancel"})
-		mu.Unlock()
-		cancel()
+		if !earlyCancelled {
+			mu.Lock()
+			add(TRec{Ev: "cancel"})
+			mu.Unlock()
+			cancel()
+		}
 		select {
 		case <-tr.Done():
 			mu.Lock()
